@@ -241,8 +241,8 @@ func EVM(r *kit.Run, rng *rand.Rand, pal *Palette, name string, chainID uint64) 
 	}
 	if len(heights) >= 2 {
 		pr := st.Prove(ccmc, slot)
-		e.Import(chainID, uint32(heights[0]), pr.JSON(), p.Serialize())   // valid
-		e.Import(chainID, uint32(heights[0]), pr.JSON(), p.Serialize())   // replay
+		e.Import(chainID, uint32(heights[0]), pr.JSON(), p.Serialize())    // valid
+		e.Import(chainID, uint32(heights[0]), pr.JSON(), p.Serialize())    // replay
 		e.Import(chainID, uint32(heights[0])-50, pr.JSON(), p.Serialize()) // below the trust root
 		bp := pr.Clone()
 		q := es.RandTxParam(rng, target)
@@ -253,4 +253,3 @@ func EVM(r *kit.Run, rng *rand.Rand, pal *Palette, name string, chainID uint64) 
 	}
 	r.Count("router_workload:"+name, 1)
 }
-
